@@ -153,7 +153,7 @@ def check_c18(tier, seed):
     quick = tier == "quick"
     rng = random.Random(seed)
     sources = []
-    for f in sorted(glob.glob("/repo/examples/*.tx3")):
+    for f in sorted(glob.glob(os.path.join(core.REPO, "examples", "*.tx3"))):
         sources.append((os.path.basename(f), open(f).read()))
     r = core.tlc_mc("MC_Tii", MCFG, "c18_mc", workers=4, timeout=600)
     rep.add_tlc(r)
